@@ -29,8 +29,8 @@
      C06_code_exports_is_model, C06_code_handle_reexport_is_model, C06_code_is_model_in_machine_states -- THE TIE TO THE
         SOURCE: the current bodies of ModuleVistor._getCurrentModuleExports and _handleReExport, translated statement by
         statement (harness/gen/gen_c06_code.py -> Gen/ReexportCode.v, deep-embedded language Model/ReexportIR.v), interpret
-        to the model's exports_of / handle_reexport for every state and all arguments (hypotheses: the current object is a
-        module; `contents` / the registry mention existing objects and parents are modules or classes -- proved to hold
+        to the model's exports_of / handle_reexport for every state and all arguments (hypotheses: the current object and
+        the origin are modules; `contents` / the registry mention existing objects and parents are modules or classes -- proved to hold
         in every machine state).  Primitive, i.e. assumed: see the header of Model/ReexportIR.v.
      (C07_moved_once in Props/C07.v is the order-independence of the location of ONE re-exported object:
         C06_single_reexporter of DESIGN.md for a single designated re-export.)
@@ -370,7 +370,8 @@ Proof. exact ReexportIRProofs.exports_ir_eq. Qed.
 
 Theorem C06_code_handle_reexport_is_model :
   forall (s : state) (cur : oid) (exports : list N) (orgname asname : N) (origin : oid),
-    ReexportIR.is_inst s cur ReexportIR.CModule = true -> ReexportIRProofs.wf_objs s ->
+    ReexportIR.is_inst s cur ReexportIR.CModule = true -> ReexportIR.is_inst s origin ReexportIR.CModule = true ->
+    ReexportIRProofs.wf_objs s ->
     ReexportIR.handle_ir ReexportCode.reexport_code s cur exports orgname asname origin =
     Some (handle_reexport s cur exports orgname asname origin).
 Proof. exact ReexportIRProofs.handle_ir_eq. Qed.
@@ -383,12 +384,13 @@ Theorem C06_code_is_model_in_machine_states :
     parents_first p -> Inv p (sname p) (sparent p) Good s -> modinfo_of p m = Some mi ->
     ReexportIR.exports_ir ReexportCode.reexport_code s (m, 0, 0) = Some (exports_of s (m, 0, 0)) /\
     forall exports orgname asname origin,
+      ReexportIR.is_inst s origin ReexportIR.CModule = true ->
       ReexportIR.handle_ir ReexportCode.reexport_code s (m, 0, 0) exports orgname asname origin =
       Some (handle_reexport s (m, 0, 0) exports orgname asname origin).
 Proof.
   intros p Good s m mi Hwf HI Hm. split.
   - exact (ReexportReach.exports_code_in_machine_states p Good s m mi HI Hm).
-  - intros exports orgname asname origin.
-    exact (ReexportReach.handle_code_in_machine_states p Hwf Good s m mi exports orgname asname origin HI Hm).
+  - intros exports orgname asname origin Horg.
+    exact (ReexportReach.handle_code_in_machine_states p Hwf Good s m mi exports orgname asname origin HI Hm Horg).
 Qed.
 
